@@ -1,2 +1,50 @@
-(* Props/C02.v *)
-From BC Require Import Store.Engine.
+(* Props/C02.v — C02: closing and reopening a store preserves exactly its contents, deletions included. *)
+From BC Require Import Store.Engine Store.Log Store.Inv Store.Refine Store.Merge Store.Theorems Store.Pinned.
+Open Scope N_scope.
+
+(* 1. After any history (here: any state reachable by a ready script, so also histories with merges),
+      any number of close/reopen cycles leaves every key reading exactly as before: surviving keys
+      keep their latest value, deleted keys stay deleted. *)
+Theorem C02_reopen_preserves : forall n s, Inv s ->
+  Inv (reopens s n) /\ forall k, abs (reopens s n) k = abs s k.
+Proof. exact reopen_preserves. Qed.
+Print Assumptions C02_reopen_preserves.
+
+(* 2. Recovery is exact: the rebuilt index points every key at the same file, offset, length and
+      timestamp as before the close, the rebuilt counters are the same, and the files are untouched
+      (the log of the directory is unchanged; the only system call is the creation of a new active file). *)
+Theorem C02_recovery_exact : forall s, Inv s -> exists s' t, reopen s = ROk (s', tt, t) /\ Inv s' /\
+  (forall k, iget (s_idx s') k = iget (s_idx s) k) /\
+  (forall g, sget0 (s_stats s') g = sget0 (s_stats s) g) /\ slog s' = slog s.
+Proof. exact reopen_index. Qed.
+Print Assumptions C02_recovery_exact.
+
+Theorem C02_reopen_only_creates : forall s s' t, reopen s = ROk (s', tt, t) -> exists a, t = [SCreate (FData a)].
+Proof.
+  intros s s' t H. unfold reopen, open in H. destruct (rebuild_files (s_dir s) ([], [])) as [[i x]|]; [|discriminate].
+  inversion H; subst. eauto.
+Qed.
+Print Assumptions C02_reopen_only_creates.
+
+(* 3. For set/delete histories from the empty store: what is read after n reopen cycles is the map's
+      final state. *)
+Theorem C02_history_then_reopen : forall c ops n, run_ready c init ops ->
+  forall k, abs (reopens (fst (fst (run c init ops))) n) k = spec_final (fun _ => None) ops k.
+Proof.
+  intros c ops n Hr k. pose proof (run_refines c ops init (proj1 init_inv) Hr) as H.
+  destruct (run c init ops) as [[s' rs] ts]. cbn [fst]. destruct H as (HI & _ & Hfin).
+  rewrite (proj2 (reopen_preserves n s' HI) k), Hfin.
+  apply (proj2 (spec_run_ext ops (abs init) (fun _ => None) ltac:(intros k0; unfold abs; rewrite (proj2 init_inv); reflexivity))).
+Qed.
+Print Assumptions C02_history_then_reopen.
+
+(* The pinned recovery violated the property: set k v; del k; reopen; get k returned v. *)
+Theorem C02_pinned_refuted :
+  let s := fst (fst (run (mkCfg 1000 false 1 1 1000 0) init [OSet [107] [118]; ODel [107]])) in
+  abs s [107] = None /\ get_after_pinned_reopen s [107] = Some (Some [118]).
+Proof. vm_compute. split; reflexivity. Qed.
+Print Assumptions C02_pinned_refuted.
+
+Example C02_example : let s := fst (fst (run (mkCfg 30 false 1 1 1000 0) init [OSet [107] [118]; ODel [107]; OSet [97] [1]; OSet [97] [2]])) in
+  abs (reopens s 3) [107] = None /\ abs (reopens s 3) [97] = Some [2].
+Proof. vm_compute. split; reflexivity. Qed.
